@@ -241,6 +241,105 @@ PROLOGUES = [[], ['"""doc"""'], ["from __future__ import annotations"], ['"""doc
              ["from __future__ import annotations", '"""not a docstring"""'], ["1", "2.5", "None"]]
 
 
+KITCHEN_SINK = '''"""module docstring"""
+from __future__ import annotations
+import sys
+LOG = []
+def deco(f):
+    LOG.append(('deco', getattr(f, '__name__', '?')))
+    return f
+def top(x):
+    return x
+@deco
+@deco
+def stacked(x):
+    return x
+class K:
+    """class doc"""
+    def m(self, x):
+        def inner(y):
+            class Local:
+                def lm(self, z):
+                    return z
+            return Local().lm(y)
+        return inner(x)
+    class Nested:
+        @staticmethod
+        def s(q):
+            return q
+if LOG is not None:
+    def in_if(x):
+        return ('if', x)
+elif LOG:
+    def in_elif(x):
+        return x
+else:
+    def in_else(x):
+        return x
+for _i in range(1):
+    def in_for(x):
+        return ('for', x)
+else:
+    def in_for_else(x):
+        return ('forelse', x)
+while False:
+    def in_while(x):
+        return x
+else:
+    def in_while_else(x):
+        return ('whileelse', x)
+with open(__file__ if '__file__' in globals() else sys.executable, 'rb') as _fh:
+    def in_with(x):
+        return ('with', x)
+try:
+    def in_try(x):
+        return ('try', x)
+    raise KeyError('k')
+except KeyError:
+    def in_except(x):
+        return ('except', x)
+else:
+    def in_try_else(x):
+        return x
+finally:
+    def in_finally(x):
+        return ('finally', x)
+try:
+    pass
+except* ValueError:
+    def in_except_star(x):
+        return x
+match LOG:
+    case []:
+        def in_match_case(x):
+            return ('match', x)
+    case [first, *rest]:
+        def in_match_case2(x):
+            if x:
+                def in_if_in_match_case(y):
+                    return y
+                return in_if_in_match_case(x)
+            return x
+        class InCase:
+            def cm(self, x):
+                return x
+    case _:
+        def in_match_default(x):
+            return x
+async def coro(x):
+    def helper(y):
+        return y * 2
+    async def inner_coro(z):
+        return z
+    return helper(x)
+lam = lambda x: (lambda y: y + x)(1)
+def main():
+    out = [top(1), stacked(2), K().m(3), K.Nested.s(4), in_if(5), in_for(6), in_for_else(7), in_while_else(8), in_with(9), in_try(10), in_except(11),
+           in_finally(12), in_match_case2(13), InCase().cm(14), __import__('asyncio').run(coro(15)), lam(16)]
+    return out, LOG
+'''
+
+
 def gen_module(rng):
     lines = list(rng.choice(PROLOGUES))
     lines.append("LOG = []")
@@ -248,7 +347,7 @@ def gen_module(rng):
     n = rng.rng(0, 5)
     names = []
     for i in range(n):
-        kind = rng.below(7)
+        kind = rng.below(9)
         stack = "".join("@deco\n" for _ in range(rng.below(3)))
         if kind == 0:
             lines.append(f"{stack}def f{i}(x, y=2):\n    'doc'\n    LOG.append(('f{i}', x, y))\n    return x + y")
@@ -268,6 +367,12 @@ def gen_module(rng):
         elif kind == 5:
             lines.append(f"try:\n    def t{i}():\n        return 't{i}'\nexcept Exception:\n    pass\nfor _k in range(2):\n    def loop{i}(q=_k):\n        return q")
             names.append(f"(t{i}(), loop{i}())")
+        elif kind == 7:
+            lines.append(f"match {rng.choice(['LOG', '[1, 2]', '(1,)', '{i}'])}:\n    case []:\n        def mc{i}(x):\n            return ('empty', x)\n    case [a, *b]:\n        def mc{i}(x):\n            def deep(y):\n                return (a, y)\n            return deep(x)\n    case _:\n        class MC{i}:\n            pass\n        def mc{i}(x):\n            return ('other', x)")
+            names.append(f"mc{i}(7)")
+        elif kind == 8:
+            lines.append(f"with __import__('contextlib').nullcontext():\n    def w{i}(x):\n        return x\nwhile True:\n    def wh{i}(x):\n        return -x\n    break\ntry:\n    raise KeyError()\nexcept KeyError:\n    def ex{i}(x):\n        return ('except', x)\nfinally:\n    def fin{i}(x):\n        return ('finally', x)")
+            names.append(f"(w{i}(1), wh{i}(2), ex{i}(3), fin{i}(4))")
         else:
             lines.append(f"def boom{i}(x):\n    y = x\n    raise ValueError('boom')")
             names.append(f"boom{i}(0)")
@@ -300,8 +405,10 @@ def run(tier, seed, out, drv, facts):
             continue
         validate(out, drv, source, path, "corpus")
     n_gen = 3000 if thorough else 200
-    for i in range(n_gen):
-        source = gen_module(rng)
+    for i in range(n_gen + 1):
+        # the first "generated" module is a fixed one with a definition in every kind of statement block
+        # (if/elif/else, for/else, while/else, with, try/except/else/finally, except*, match cases, nested)
+        source = KITCHEN_SINK if i == 0 else gen_module(rng)
         path = f"<generated {i}>"
         code = validate(out, drv, source, path, "generated")
         if code is None:
